@@ -236,9 +236,11 @@ func mbSpec(req int, oddBudget int) *engine.BFS[*mbState] {
 	ods = append(ods, od{'r', mbAmount{}})
 	return &engine.BFS[*mbState]{
 		Name: fmt.Sprintf("request=%d,odd<=%d", req, oddBudget),
-		New:  func() *mbState { return mbNew(req) },
-		Free: mbFree,
-		Ops:  ops,
+		// the reachable space has depth <= 10; a defect that lets an internal index drift makes it an endless chain
+		Depth: 48,
+		New:   func() *mbState { return mbNew(req) },
+		Free:  mbFree,
+		Ops:   ops,
 		Apply: func(s *mbState, op int) (bool, *engine.Violation) {
 			d := ods[op]
 			if s.initViol != nil {
@@ -328,14 +330,19 @@ func mbRequests(tier string) []int {
 func C11(tier string) *engine.Report {
 	rep := engine.NewReport("C11", tier, "model_checking")
 	var tot engine.BFSTotals
+	deadline := engine.Cap(tier) // one wall-clock budget for the whole check
 	budget := 2
 	if tier == "thorough" {
 		budget = 3
 	}
 	for _, req := range mbRequests(tier) {
 		sp := mbSpec(req, budget)
-		sp.Until = engine.Cap(tier)
-		tot.Add(sp.Name, sp.Run(), rep)
+		sp.Until = deadline
+		r := sp.Run()
+		if !r.Fixpoint {
+			r.Capped = true // this search is meant to reach a fixpoint; anything less is reported as not exhaustive
+		}
+		tot.Add(sp.Name, r, rep)
 		if v := mbLifecycle(req); v != nil {
 			v.Config = fmt.Sprintf("lifecycle,request=%d", req)
 			rep.Add(*v)
